@@ -6,7 +6,7 @@ the light-quark rows and the heavy-quark (intrinsic) rows.
 Oracle with S = max over the ladder of the cancellation-safe size sum|O_FFNS f|:
   (a) envelope  |Delta(r)| <= 3 S (1+ln r)^3 / r  for every r;
   (b) smallness |Delta(1e5)| <= 3e-2 S, |Delta(1e6)| <= 3e-3 S;
-  (c) decay     a factor >= 10 over two decades in at least one of the windows 1e3 -> 1e5 and 1.1e4 -> 1e6 (floor 1e-5 S): the massive intrinsic
+  (c) decay     a factor >= 5 over two decades (a 1/r law with ln^4 r gives 0.06, measured <= 0.074) in at least one of the windows 1e3 -> 1e5 and 1.1e4 -> 1e6 (floor 1e-5 S): the massive intrinsic
       kernels are round-off limited at r >= 3e5 (noise 5e-5 relative, 15x their reported error), NNLO differences change sign below 1e4.
 """
 import itertools
@@ -88,9 +88,18 @@ def _v(st, what, msg):
     return {"fp": fp, "fpkey": {"cls": what, "hq": st["hq"], "nfff": st["nfff"], "kind": st["kind"], "process": st["process"], "obs": st["obs"]}, "msg": msg}
 
 
+def _states_evol(seed):
+    out = []
+    for hq, nfff in (("charm", 3), ("bottom", 3)):
+        for k, p in (("F2", "NC"), ("FL", "NC"), ("F2", "CC"), ("F3", "CC"), ("g1", "EM")):
+            for x in (1e-2, 0.3):
+                out.append({"hq": hq, "nfff": nfff, "kind": k, "process": p, "obs": "h", "pto": 1, "pto_evol": 2, "x": x})
+    return out
+
+
 def states(tier, seed):
     """quick = the full base lattice; thorough = base lattice + the deep extension."""
-    base = _states_base("thorough", seed)
+    base = _states_base("thorough", seed) + _states_evol(seed)
     if tier == "quick":
         return base
     seen = {digest(s) for s in base}
@@ -116,6 +125,9 @@ def execute(st):
     runs = {}
     for sch in ("FFNS", "FFN0"):
         c = {"scheme": f"{sch if sch == 'FFNS' else 'FFN0'}{st['nfff']}", "process": st["process"], "pto": st["pto"], "grid": "G9", "theory": {"RenScaleVar": False, "FactScaleVar": False}}
+        if "pto_evol" in st:
+            # evolution order above the DIS order: more asymptotic log towers are instantiated, the limit must be unchanged order by order
+            c["pto"], c["ptodis"] = st["pto_evol"], st["pto"]
         out, s = rel.try_run(c, {name: [cards.kin(st["x"], r * m * m) for r in LADDER]})
         if s != "ok":
             return {"violations": [], "nontrivial": False, "outcome": f"{sch}:{s}", "transitions": 1, "info": {"n_" + s.split(":")[0]: 1}}
@@ -163,8 +175,8 @@ def execute(st):
                     viol.append(_v(st, "envelope", f"{desc}: |FFNS-FFN0| = {abs(D[i]):.3e} at Q2/m2={LADDER[i]:.0e} exceeds 3 S (1+ln r)^3/r (S={Smax:.3e}); ladder {['%.2e' % d for d in D]}"))
                 if abs(D[3]) > 3e-2 * Smax or abs(D[4]) > 3e-3 * Smax:
                     viol.append(_v(st, "not-small", f"{desc}: FFNS-FFN0 does not vanish at high virtuality: {abs(D[3])/Smax:.2e} S at 1e5, {abs(D[4])/Smax:.2e} S at 1e6; ladder {['%.2e' % d for d in D]} (S={Smax:.3e})"))
-                if dec > 0.1:
-                    viol.append(_v(st, "no-decay", f"{desc}: FFNS-FFN0 does not fall by a factor 10 over two decades in either window: 1e3 -> 1e5: {abs(D[1]):.3e} -> {abs(D[3]):.3e}; 1.1e4 -> 1e6: {abs(D[2]):.3e} -> {abs(D[4]):.3e} (S={Smax:.3e})"))
+                if dec > 0.2:
+                    viol.append(_v(st, "no-decay", f"{desc}: FFNS-FFN0 does not fall by a factor 5 over two decades in either window: 1e3 -> 1e5: {abs(D[1]):.3e} -> {abs(D[3]):.3e}; 1.1e4 -> 1e6: {abs(D[2]):.3e} -> {abs(D[4]):.3e} (S={Smax:.3e})"))
     seen, uv = set(), []
     for v_ in viol:
         if v_["fpkey"]["cls"] not in seen:
